@@ -71,6 +71,10 @@ type Monitors struct {
 	uncompared int
 	power      []int64
 	total      int64
+	// C16
+	propChecked  map[int]map[[2]int64]bool
+	propRef      map[[2]int64][]byte
+	propCompared int
 }
 
 func newMonitors(nt *Net) *Monitors {
@@ -329,7 +333,53 @@ func (m *Monitors) afterStep(n *Node) {
 	}
 	st := n.cs.VerifState()
 	_ = st
+	m.checkProposer(n, rs)
 	m.checkStore(n)
+}
+
+// checkProposer (C16): the proposer a replica computes for its current (height, round)
+// must be the one that follows from the validator-set history alone: the monitor's own
+// replica of that history advances a fresh genesis set once per height (with the
+// scenario's validator-set change at its height) and then once per round — no detours
+// through earlier rounds, restarts or catch-up.  Whatever path a node took, it must agree.
+func (m *Monitors) checkProposer(n *Node, rs *pbft.RoundState) {
+	if n.Byz || rs.Validators == nil || rs.Height < 1 || rs.Round < 0 {
+		return
+	}
+	k := [2]int64{rs.Height, rs.Round}
+	if m.propChecked == nil {
+		m.propChecked = map[int]map[[2]int64]bool{}
+		m.propRef = map[[2]int64][]byte{}
+	}
+	if m.propChecked[n.Idx] == nil {
+		m.propChecked[n.Idx] = map[[2]int64]bool{}
+	}
+	if m.propChecked[n.Idx][k] {
+		return
+	}
+	m.propChecked[n.Idx][k] = true
+	want, ok := m.propRef[k]
+	if !ok {
+		vs := m.nt.refValidators(rs.Height)
+		if rs.Round > 0 {
+			vs.IncrementAccum(rs.Round)
+		}
+		if p := vs.Proposer(); p != nil {
+			want = p.Address
+		}
+		m.propRef[k] = want
+	}
+	got := rs.Validators.Proposer()
+	m.propCompared++
+	if got == nil || want == nil || bytes.Equal(got.Address, want) {
+		return
+	}
+	path := "live"
+	if n.restarts > 0 {
+		path = "restarted"
+	}
+	m.report("C16", map[string]string{"kind": "proposer-not-a-function-of-the-history", "site": "ConsensusState.Validators.Proposer", "path": path},
+		fmt.Sprintf("node %d (%s) at height %d round %d has proposer %X; the validator-set history alone gives %X", n.Idx, path, rs.Height, rs.Round, got.Address[:4], want[:4]))
 }
 
 // checkStore audits newly committed blocks of n (C01 agreement + linearity, C02 audit, C04 commit rule).
